@@ -1085,3 +1085,295 @@ impl World {
         XHopOut { line, viols, tags }
     }
 }
+
+// ================================================================================================
+// C04 / C18 / C06 / C16: position instructions of the ANCHOR path through the entrypoint
+//   H xpos <kind upd|cf|close|reset> <ver 1|2> <id> <authMode> <a1> <a2> <feeA: bps max fut> <feeB: bps max fut>
+// upd   = update_fees_and_rewards (permissionless)            cf = collect_fees (ver 1) / collect_fees_v2 (ver 2)
+// close = close_position                                      reset = reset_position_range(a1, a2)
+// authMode: 0 owner signs; 1 a stranger signs; 2 the owner does not sign; 3 a one-token delegate signs;
+//           4 a delegate with allowance 0 signs.
+// Read-only on the history: runs on a fixture built from the current state.
+// ================================================================================================
+use ::whirlpool::state::Position;
+use anchor_lang::prelude::Pubkey;
+use anchor_lang::AccountSerialize;
+
+fn token_account_delegated(mint: &Pubkey, owner: &Pubkey, amount: u64, delegate: &Pubkey, delegated: u64) -> Vec<u8> {
+    use anchor_lang::solana_program::program_option::COption;
+    use anchor_lang::solana_program::program_pack::Pack;
+    let base = anchor_spl::token::spl_token::state::Account {
+        mint: *mint,
+        owner: *owner,
+        amount,
+        delegate: COption::Some(*delegate),
+        state: anchor_spl::token::spl_token::state::AccountState::Initialized,
+        is_native: COption::None,
+        delegated_amount: delegated,
+        close_authority: COption::None,
+    };
+    let mut d = vec![0u8; 165];
+    anchor_spl::token::spl_token::state::Account::pack(base, &mut d).unwrap();
+    d
+}
+
+impl World {
+    pub fn x_pos(&self, t: &[&str]) -> XHopOut {
+        use anchor_lang::ToAccountMetas;
+        let mut viols = vec![];
+        let mut tags: Vec<&'static str> = vec![];
+        let kind = t[2];
+        let ver: u8 = t[3].parse().unwrap();
+        let id: u32 = t[4].parse().unwrap();
+        let mut auth_mode: u8 = t[5].parse().unwrap();
+        let (a1, a2): (i64, i64) = (t[6].parse().unwrap(), t[7].parse().unwrap());
+        let v2 = kind == "cf" && ver == 2;
+        let (fee_a, fee_b) = if v2 { (parse_fee(t[8], t[9], t[10]), parse_fee(t[11], t[12], t[13])) } else { (None, None) };
+        if kind == "upd" {
+            auth_mode = 0;
+        }
+        if kind == "close" && auth_mode >= 3 {
+            // a delegate can burn but not close the token account: not a variant of this experiment
+            auth_mode = 0;
+        }
+        let pos0 = match self.pos(id) {
+            Some(p) => p,
+            None => return XHopOut { line: "err NoSuchPosition".to_string(), viols, tags },
+        };
+        let mut base = crate::hist_oracle::clone_world(self);
+        let (ls, us) = (base.array_start_for(pos0.tick_lower_index), base.array_start_for(pos0.tick_upper_index));
+        base.ensure_array(ls);
+        base.ensure_array(us);
+        let f = |c: Option<FeeCfg>| c.map(|c| (c.bps as u64, c.max_fee)).unwrap_or((0, 0));
+        let ((ba, ma), (bb, mb)) = (f(fee_a), f(fee_b));
+        // ---- fixture
+        let t22a = v2 && t[8] != "65535";
+        let t22b = v2 && t[11] != "65535";
+        let funds = u64::MAX / 4;
+        let mut fx = Fx::from_world(&base, fee_a, fee_b, t22a, t22b, funds);
+        let pmint = k(0x61, id as u8);
+        let position = Pubkey::find_program_address(&[b"position", pmint.as_ref()], &::whirlpool::ID).0;
+        let ptoken = k(0x62, id as u8);
+        let stranger = k(0x63, 9);
+        let delegate = k(0x63, 10);
+        let mut pdata = base.positions[&id].clone();
+        pdata[8..40].copy_from_slice(fx.pool.as_ref());
+        pdata[40..72].copy_from_slice(pmint.as_ref());
+        let pos_units = *base.pos_rent.get(&id).unwrap_or(&2);
+        fx.bank.set(position, ::whirlpool::ID, min_balance(pdata.len()) + pos_units as u64 * TICK_RENT, pdata.clone());
+        // position mint with supply 1 (close burns the token)
+        {
+            use anchor_lang::solana_program::program_option::COption;
+            use anchor_lang::solana_program::program_pack::Pack;
+            let m = anchor_spl::token::spl_token::state::Mint { mint_authority: COption::None, supply: 1, decimals: 0, is_initialized: true, freeze_authority: COption::None };
+            let mut d = vec![0u8; 82];
+            anchor_spl::token::spl_token::state::Mint::pack(m, &mut d).unwrap();
+            fx.bank.set(pmint, anchor_spl::token::ID, 1_500_000, d);
+        }
+        let tdata = match auth_mode {
+            3 => token_account_delegated(&pmint, &fx.trader, 1, &delegate, 1),
+            4 => token_account_delegated(&pmint, &fx.trader, 1, &delegate, 0),
+            _ => crate::fixture::token_account_data(false, &pmint, &fx.trader, 1, false),
+        };
+        fx.bank.set(ptoken, anchor_spl::token::ID, 2_100_000, tdata);
+        fx.bank.set(stranger, crate::svm::system_id(), 1_000_000, vec![]);
+        fx.bank.set(delegate, crate::svm::system_id(), 1_000_000, vec![]);
+        fx.bank.set_program(crate::svm::system_id());
+        let bank0 = fx.bank.clone();
+        let signer_key = match auth_mode {
+            1 => stranger,
+            3 | 4 => delegate,
+            _ => fx.trader,
+        };
+        let (ta_l, ta_u) = (crate::fixture::tick_array_pda(&fx.pool, ls), crate::fixture::tick_array_pda(&fx.pool, us));
+        // ---- instruction
+        let (mut metas, data): (Vec<Meta>, Vec<u8>) = match (kind, ver) {
+            ("upd", _) => {
+                let acc = ::whirlpool::accounts::UpdateFeesAndRewards { whirlpool: fx.pool, position, tick_array_lower: ta_l, tick_array_upper: ta_u };
+                (acc.to_account_metas(None).iter().map(Meta::from).collect(), ::whirlpool::instruction::UpdateFeesAndRewards {}.data())
+            }
+            ("cf", 2) => {
+                let acc = ::whirlpool::accounts::CollectFeesV2 {
+                    whirlpool: fx.pool,
+                    position_authority: signer_key,
+                    position,
+                    position_token_account: ptoken,
+                    token_mint_a: fx.mint_a,
+                    token_mint_b: fx.mint_b,
+                    token_owner_account_a: fx.trader_a,
+                    token_vault_a: fx.vault_a,
+                    token_owner_account_b: fx.trader_b,
+                    token_vault_b: fx.vault_b,
+                    token_program_a: fx.prog_a,
+                    token_program_b: fx.prog_b,
+                    memo_program: anchor_spl::memo::ID,
+                };
+                (acc.to_account_metas(None).iter().map(Meta::from).collect(), ::whirlpool::instruction::CollectFeesV2 { remaining_accounts_info: None }.data())
+            }
+            ("cf", _) => {
+                let acc = ::whirlpool::accounts::CollectFees {
+                    whirlpool: fx.pool,
+                    position_authority: signer_key,
+                    position,
+                    position_token_account: ptoken,
+                    token_owner_account_a: fx.trader_a,
+                    token_vault_a: fx.vault_a,
+                    token_owner_account_b: fx.trader_b,
+                    token_vault_b: fx.vault_b,
+                    token_program: anchor_spl::token::ID,
+                };
+                (acc.to_account_metas(None).iter().map(Meta::from).collect(), ::whirlpool::instruction::CollectFees {}.data())
+            }
+            ("close", _) => {
+                let acc = ::whirlpool::accounts::ClosePosition { position_authority: signer_key, receiver: fx.trader, position, position_mint: pmint, position_token_account: ptoken, token_program: anchor_spl::token::ID };
+                (acc.to_account_metas(None).iter().map(Meta::from).collect(), ::whirlpool::instruction::ClosePosition {}.data())
+            }
+            _ => {
+                let acc = ::whirlpool::accounts::ResetPositionRange { funder: fx.trader, position_authority: signer_key, whirlpool: fx.pool, position, position_token_account: ptoken, system_program: crate::svm::system_id() };
+                (
+                    acc.to_account_metas(None).iter().map(Meta::from).collect(),
+                    ::whirlpool::instruction::ResetPositionRange { new_tick_lower_index: a1.clamp(i32::MIN as i64, i32::MAX as i64) as i32, new_tick_upper_index: a2.clamp(i32::MIN as i64, i32::MAX as i64) as i32 }.data(),
+                )
+            }
+        };
+        if auth_mode == 2 {
+            for m in metas.iter_mut() {
+                if m.key == signer_key {
+                    m.signer = false;
+                }
+            }
+        }
+        if kind == "reset" {
+            // the funder (the owner's wallet) always signs; in mode 2 only the authority slot loses its signature
+            // (funder and authority are the same key in modes 0 and 2, so mode 2 cannot be expressed: use the stranger as funder)
+            if auth_mode == 2 {
+                for m in metas.iter_mut().take(1) {
+                    m.key = stranger;
+                    m.signer = true;
+                }
+            }
+        }
+        let (res, out) = fx.bank.execute(&metas, &data);
+        let bal = |b: &Bank, key: &Pubkey| token_amount(&b.data(key));
+        // ---- expectations
+        let empty = Position::is_position_empty(&pos0);
+        let authorised = matches!(auth_mode, 0 | 3);
+        let line = match &res {
+            Err(e) => {
+                let name = err_name(e, &out.logs);
+                if fx.bank.accts != bank0.accts {
+                    viols.push("a failed position instruction changed account state".to_string());
+                }
+                if authorised {
+                    match kind {
+                        "close" if !empty => tags.push("pos_close_not_empty_rejected"),
+                        "reset" => tags.push("pos_reset_rejected"),
+                        "upd" => tags.push("pos_upd_rejected"),
+                        "cf" => {
+                            let short = (pos0.fee_owed_a > bal(&bank0, &fx.vault_a)) || (pos0.fee_owed_b > bal(&bank0, &fx.vault_b));
+                            if short {
+                                tags.push("pos_cf_vault_cap");
+                            } else {
+                                viols.push(format!("C04/C06 collect_fees v{} by the position's authority fails with {}", ver, name));
+                            }
+                        }
+                        _ => viols.push(format!("C18 close_position of an empty position by its owner fails with {}", name)),
+                    }
+                } else {
+                    tags.push("pos_unauthorized_rejected");
+                }
+                format!("err {}", name)
+            }
+            Ok(()) => {
+                if !authorised {
+                    viols.push(format!("C04 position instruction `{}` succeeded although neither the holder of the position token nor its one-token delegate signed (mode {})", kind, auth_mode));
+                }
+                match kind {
+                    "upd" => {
+                        let mut reference = crate::hist_oracle::clone_world(&base);
+                        match reference.update_fees_pub(id) {
+                            Ok(_) => {
+                                if fx.bank.data(&position)[72..] != reference.positions[&id][72..] {
+                                    viols.push("C07/C11 the position after update_fees_and_rewards differs from the manager-level result".to_string());
+                                }
+                                let (w1, w2) = (fx.wp(), reference.wp());
+                                if w1.reward_last_updated_timestamp != w2.reward_last_updated_timestamp || (0..3).any(|i| { w1.reward_infos[i].growth_global_x64 } != { w2.reward_infos[i].growth_global_x64 }) {
+                                    viols.push("C11 the pool's reward state after update_fees_and_rewards differs from the manager-level result".to_string());
+                                }
+                            }
+                            Err(e) => viols.push(format!("update_fees_and_rewards succeeded but the manager-level computation fails with {}", e)),
+                        }
+                        tags.push("pos_upd_ok");
+                        "ok".to_string()
+                    }
+                    "cf" => {
+                        let (oa, ob) = (pos0.fee_owed_a, pos0.fee_owed_b);
+                        let (ua, ub) = (oa - fee_of(ba, ma, oa), ob - fee_of(bb, mb, ob));
+                        let (d_ta, d_tb) = (bal(&fx.bank, &fx.trader_a) - bal(&bank0, &fx.trader_a), bal(&fx.bank, &fx.trader_b) - bal(&bank0, &fx.trader_b));
+                        let (d_va, d_vb) = (bal(&bank0, &fx.vault_a) - bal(&fx.bank, &fx.vault_a), bal(&bank0, &fx.vault_b) - bal(&fx.bank, &fx.vault_b));
+                        if (d_va, d_vb) != (oa, ob) {
+                            viols.push(format!("C06/C01 collect_fees took ({}, {}) from the vaults but the position was owed ({}, {})", d_va, d_vb, oa, ob));
+                        }
+                        if (d_ta, d_tb) != (ua, ub) {
+                            viols.push(format!("C16 collect_fees: the owner received ({}, {}); expected the owed amounts minus their transfer fees ({}, {})", d_ta, d_tb, ua, ub));
+                        }
+                        let p_after = Position::try_deserialize(&mut &fx.bank.data(&position)[..]).unwrap();
+                        if p_after.fee_owed_a != 0 || p_after.fee_owed_b != 0 {
+                            viols.push("C06 collect_fees left fees owed on the position".to_string());
+                        }
+                        let mut want = pos0.clone();
+                        want.reset_fees_owed();
+                        let mut wd = vec![];
+                        want.try_serialize(&mut wd).unwrap();
+                        if fx.bank.data(&position)[72..] != wd[72..] {
+                            viols.push("C06 collect_fees changed something else than the fees owed of the position".to_string());
+                        }
+                        if fx.bank.data(&fx.pool) != bank0.data(&fx.pool) {
+                            viols.push("C06 collect_fees changed the pool account".to_string());
+                        }
+                        tags.push(if ba > 0 || bb > 0 { "pos_cf_ok_with_transfer_fee" } else { "pos_cf_ok" });
+                        format!("ok {} {} {} {}", ua, ub, oa, ob)
+                    }
+                    "close" => {
+                        if !empty {
+                            viols.push("C18 close_position succeeded on a position that still holds liquidity, owed fees or owed rewards".to_string());
+                        }
+                        let p_after = fx.bank.get(&position);
+                        if !(p_after.data.is_empty() || p_after.lamports == 0 || p_after.owner != ::whirlpool::ID) {
+                            viols.push("C18 close_position left the position account open".to_string());
+                        }
+                        let m_after = fx.bank.data(&pmint);
+                        if m_after.len() >= 44 && u64::from_le_bytes(m_after[36..44].try_into().unwrap()) != 0 {
+                            viols.push("C18 close_position did not burn the position token".to_string());
+                        }
+                        tags.push("pos_close_ok");
+                        "ok".to_string()
+                    }
+                    _ => {
+                        if !empty {
+                            viols.push("C18 reset_position_range succeeded on a non-empty position".to_string());
+                        }
+                        let p_after = Position::try_deserialize(&mut &fx.bank.data(&position)[..]).unwrap();
+                        if (p_after.tick_lower_index as i64, p_after.tick_upper_index as i64) != (a1, a2) {
+                            viols.push("C18 reset_position_range did not store the new range".to_string());
+                        }
+                        if (a1, a2) == (pos0.tick_lower_index as i64, pos0.tick_upper_index as i64) {
+                            viols.push("C18 reset_position_range accepted the unchanged range".to_string());
+                        }
+                        let ts = fx.wp().tick_spacing;
+                        let ok_range = a1 < a2 && Tick::check_is_usable_tick(a1 as i32, ts) && Tick::check_is_usable_tick(a2 as i32, ts) && a1 >= -443636 && a2 <= 443636;
+                        if !ok_range {
+                            viols.push(format!("C18 reset_position_range accepted the invalid range [{}, {}) for spacing {}", a1, a2, ts));
+                        }
+                        if p_after.fee_growth_checkpoint_a != 0 || p_after.fee_growth_checkpoint_b != 0 || (0..3).any(|i| p_after.reward_infos[i].growth_inside_checkpoint != 0) {
+                            viols.push("C18 reset_position_range did not reset the growth checkpoints".to_string());
+                        }
+                        tags.push("pos_reset_ok");
+                        "ok".to_string()
+                    }
+                }
+            }
+        };
+        XHopOut { line, viols, tags }
+    }
+}
